@@ -25,6 +25,8 @@ open RV.Arith IntOrPct RV.Traffic RV.ClosedLoopBG RV.Oracle.ClosedLoopBG RV.Lemm
 open RV.ClosedLoop (CBr Label CS)
 open RV.CtlBlueGreen (Workload HPA maxReady)
 open RV.RolloutSM (World WL Sub StepResult reconcile inRolling handleFinalizer calculateStatus)
+open RV.ExecutorX (bgPlane bgInfo mkInfo syncVia reconcileX_cases syncStatusX_val)
+open RV.Executor (BR Status Event syncDecide refreshStatus isPlanFinalizing isPlanChanged isPlanUnhealthy signalRecalculate resetStatus)
 
 /-! ## 0. the closed loop of `RV.ClosedLoop` is an instance -/
 
@@ -584,5 +586,175 @@ theorem bg_refuses_continuous_ro (s s' : BS) (hsup : superseded s = true) (hs : 
           rw [hsub']
           simp only [hexp, decide_true, Bool.true_and, Bool.and_eq_true, decide_eq_true_eq, Bool.not_eq_true']
           exact ⟨⟨⟨e8.symm, e9.symm⟩, hreason'⟩, hgone'⟩
+
+/-- the sync step of the executor stops when it finds the workload on another revision than the one it recorded (and the
+    release is Progressing, not finalizing): whatever else it finds first — an unobserved generation, a changed plan, a cursor
+    outside the plan, a scaling — either stops as well or changes the status, which is persisted before anything acts -/
+theorem sync_stops_superseded (br : BR) (info : ExecutorX.Info) (hph : br.status.phase = .progressing)
+    (hnf : isPlanFinalizing br = false) (hrev : br.status.updateRevision ≠ "")
+    (hne : info.updateRevision ≠ br.status.updateRevision) (hcur : info.updateRevision ≠ info.currentRevision)
+    (hnp : info.statusReplicas ≠ info.updated) :
+    ((syncDecide br br.status (Executor.syncInfo br br.status (some info)).1 (Executor.syncInfo br br.status (some info)).2).2 ||
+      decide (refreshStatus (syncDecide br br.status (Executor.syncInfo br br.status (some info)).1
+        (Executor.syncInfo br br.status (some info)).2).1 (Executor.syncInfo br br.status (some info)).2 ≠ br.status)) = true := by
+  have hdel : br.deleting = false := by
+    unfold isPlanFinalizing at hnf
+    simp only [Bool.or_eq_false_iff] at hnf
+    exact hnf.1.1
+  have hnc : ¬ br.status.phase = .completed := by rw [hph]; decide
+  -- the three early cases of the chain either are not taken or change the status
+  have early : ∀ (ev : Event) (i : Option ExecutorX.Info),
+      (isPlanChanged br = true ∨ isPlanUnhealthy br = true) →
+      decide (refreshStatus (syncDecide br br.status ev i).1 i ≠ br.status) = true := by
+    intro ev i hc
+    simp only [decide_eq_true_eq]
+    unfold syncDecide
+    rw [if_neg hnc, hnf]
+    simp only [Bool.false_eq_true, if_false]
+    by_cases hch : isPlanChanged br = true
+    · rw [if_pos hch]
+      intro heq
+      have := congrArg (·.hash) heq
+      unfold isPlanChanged at hch
+      simp only [Bool.and_eq_true, bne_iff_ne, ne_eq, decide_eq_true_eq] at hch
+      unfold refreshStatus signalRecalculate at this
+      cases i <;> simp at this <;> exact hch.1 this.symm
+    · rw [if_neg hch]
+      have hun : isPlanUnhealthy br = true := by rcases hc with h | h; exact absurd h hch; exact h
+      rw [if_pos hun]
+      intro heq
+      have := congrArg (·.phase) heq
+      unfold refreshStatus resetStatus at this
+      cases i <;> simp [hph] at this
+  by_cases hearly : isPlanChanged br = true ∨ isPlanUnhealthy br = true
+  · rw [early _ _ hearly]; exact Bool.or_true _
+  · have h1 : ¬ isPlanChanged br = true := fun h => hearly (Or.inl h)
+    have h2 : ¬ isPlanUnhealthy br = true := fun h => hearly (Or.inr h)
+    unfold Executor.syncInfo
+    rw [if_neg (by simp [hdel])]
+    dsimp only
+    split
+    · -- the generation has not been observed
+      unfold syncDecide
+      simp [hnc, hnf, h1, h2, hph]
+    · split
+      · -- scaling: the recorded size changes
+        rename_i hsc
+        apply (Bool.or_eq_true _ _).mpr
+        right
+        simp only [decide_eq_true_eq]
+        unfold syncDecide
+        rw [if_neg hnc, hnf]
+        simp only [Bool.false_eq_true, if_false, if_neg h1, if_neg h2, hph]
+        simp only [reduceCtorEq, false_and, if_false, and_self, if_true, true_and]
+        intro heq
+        have := congrArg (·.observedReplicas) heq
+        unfold refreshStatus at this
+        simp at this
+        exact hsc.2 this
+      · split
+        · rename_i hrb
+          exact absurd hrb.2.1 hcur
+        · rw [if_pos ⟨hrev, hne⟩]
+          unfold syncDecide
+          simp [hnc, hnf, h1, h2, hph]
+
+theorem bgLand_proj (b : BW) : bgLand b (bgProj b) = b := by
+  unfold bgLand bgProj
+  cases hb : b.wl with
+  | none => cases b; simp_all
+  | some wl => cases b; simp_all
+
+/-- **`bg_refuses_continuous`, the BatchRelease controller** (C10) — for EVERY state: while the workload is on a newer
+    revision and the BatchRelease supervises the release it was created for (`brSupervises`), a BatchRelease reconcile stops
+    after its sync step: nothing exposed changes.
+    partial: outside `brSupervises` lies the open finding `supersedeBeforeInit` (the BatchRelease has not recorded its revision
+    yet, or has recorded the newer one) — `bg_refuses_continuous_full_FALSE`. -/
+theorem bg_refuses_continuous_br_partial (s s' : BS) (hsup : superseded s = true) (hg : brSupervises s = true)
+    (hs : bgStep s .br = some s') : refusesContinuous s .br s' = true := by
+  have hsup0 := hsup
+  unfold superseded at hsup
+  simp only [Bool.and_eq_true, Bool.not_eq_true', decide_eq_true_eq, Option.isSome_iff_exists] at hsup
+  obtain ⟨⟨⟨⟨⟨⟨⟨hgone, _⟩, _⟩, hr⟩, _⟩, _⟩, ⟨wl, hwl⟩⟩, hsub⟩ := hsup
+  cases hos : s.ro.sub with
+  | none => rw [hos] at hsub; cases hsub
+  | some os =>
+    rw [hos] at hsub
+    simp only [Bool.and_eq_true, decide_eq_true_eq, ne_eq] at hsub
+    obtain ⟨_, hnotstable⟩ := hsub
+    -- it suffices that the reconcile leaves the CloneSet / HPAs and the BatchRelease's plan alone
+    suffices h : s'.world = s.world ∧ s'.net = s.net ∧ s'.ro = s.ro ∧ s'.gone = s.gone ∧
+        s'.br.map (fun b => (b.batches, b.partition, b.deleting)) = s.br.map (fun b => (b.batches, b.partition, b.deleting)) by
+      obtain ⟨h1, h2, h3, h4, h5⟩ := h
+      unfold refusesContinuous
+      dsimp only
+      rw [if_pos hsup0, h3, hos]
+      have hexp : exposureOf s' = exposureOf s := by
+        unfold exposureOf
+        rw [h1, h2]
+        congr 1
+        cases hb' : s'.br <;> cases hb : s.br <;> rw [hb', hb] at h5 <;> simp_all
+      simp [hexp, hr, h4, hgone]
+    unfold bgStep at hs
+    simp only [step, stepBr] at hs
+    split at hs
+    · injection hs with hs; subst hs; exact ⟨rfl, rfl, rfl, rfl, rfl⟩
+    · rename_i b hb
+      split at hs
+      · cases hs
+      · rename_i o ho
+        injection hs with hs; subst hs
+        unfold brSupervises at hg
+        rw [hb, hwl] at hg
+        simp only [Bool.and_eq_true, Bool.not_eq_true', decide_eq_true_eq, ne_eq] at hg
+        obtain ⟨⟨⟨⟨⟨hpart, hdel⟩, hphase⟩, hrec⟩, hnew⟩, hnprom⟩ := hg
+        have hpl : bgLoop.plane = bgPlane .cloneSet := rfl
+        have hpj : bgLoop.proj s.world = bgProj s.world := rfl
+        rw [hpl, hpj] at ho
+        rcases reconcileX_cases (bgPlane .cloneSet) (RV.ClosedLoop.exBr b) (bgProj s.world) o ho with
+          ⟨hd, _⟩ | ⟨_, sy, hsync, hrest⟩
+        · have : (RV.ClosedLoop.exBr b).deleting = b.deleting := rfl
+          rw [this, hdel] at hd; cases hd
+        · have hstop : sy.stop = true := by
+            obtain ⟨ev, info, hinfo, _, hstop⟩ := syncStatusX_val _ _ _ _ sy hsync
+            rw [hstop]
+            -- the plane's SyncWorkloadInformation is the event chain on the parsed CloneSet
+            have hinit : Executor.initializedStatus (RV.ClosedLoop.exBr b).status = (Executor.withFinalizer (RV.ClosedLoop.exBr b)).status := by
+              unfold Executor.initializedStatus
+              rw [if_neg (by show ¬ b.st.phase = .empty; rw [hphase]; decide)]
+              rfl
+            rw [hinit] at hinfo ⊢
+            have hsi : (bgPlane .cloneSet).syncInfo (Executor.withFinalizer (RV.ClosedLoop.exBr b))
+                (Executor.withFinalizer (RV.ClosedLoop.exBr b)).status (bgProj s.world) = .val (ev, info) := hinfo
+            simp only [bgPlane, syncVia] at hsi
+            rw [if_neg (by show ¬ b.deleting = true; rw [hdel]; decide)] at hsi
+            cases hrep : wl.replicas with
+            | none =>
+              have hbi : bgInfo .cloneSet (bgProj s.world) = .panic := by
+                unfold bgInfo; rw [show (bgProj s.world).w.wl = some wl from hwl]; simp only [hrep]
+              rw [hbi] at hsi; cases hsi
+            | some R0 =>
+              have hbi : bgInfo .cloneSet (bgProj s.world) =
+                  .val (some (mkInfo R0 s.world.generation s.world.observedGeneration wl.status.replicas wl.status.updated
+                    wl.status.updatedReady s.world.updateRevision s.world.currentRevision)) := by
+                unfold bgInfo; rw [show (bgProj s.world).w.wl = some wl from hwl]; simp only [hrep]; rfl
+              rw [hbi] at hsi
+              simp only [Executor.Out.val.injEq] at hsi
+              have e1 := congrArg Prod.fst hsi
+              have e2 := congrArg Prod.snd hsi
+              simp only at e1 e2
+              rw [← e1, ← e2]
+              refine sync_stops_superseded (Executor.withFinalizer (RV.ClosedLoop.exBr b)) _ hphase ?_ hrec ?_ ?_ ?_
+              · show (b.deleting || decide (b.st.phase = .finalizing) || b.partition.isNone) = false
+                rw [hdel, hphase]; cases hp : b.partition <;> simp_all
+              · exact fun e => hnew e.symm
+              · exact fun e => hnotstable e
+              · exact hnprom
+          rcases hrest with ⟨_, hobr, hw⟩ | ⟨hns, _⟩
+          · refine ⟨?_, rfl, rfl, rfl, ?_⟩
+            · show bgLand s.world o.wl = s.world
+              rw [hw]; exact bgLand_proj _
+            · rw [hobr, hb]; rfl
+          · rw [hstop] at hns; cases hns
 
 end RV.Props.ClosedLoopBG
